@@ -23,7 +23,7 @@ for m in sorted(glob.glob("/verif/seeded/*/meta.json")):
     am = json.load(open(m)).get("agent_meta", {})
     files = " ".join(am.get("files_changed", []) or [])
     if any(k in files for k in keys):
-        avoid.append("- " + " ".join((am.get("summary") or "").split())[:180])
+        avoid.append("- " + " ".join((am.get("summary") or "").split())[:420])
 print(f"""You are working in a scratch git worktree of the Rust library a4lg/ffuzzy (a pure-Rust ssdeep fuzzy hashing library; crate `ffuzzy`, lib name `ssdeep`) at {W}. Work ONLY inside {W}; never read or touch /repo, /verif or other /tmp directories. There is no network: always run cargo with `--offline` and the environment `CARGO_NET_OFFLINE=true CARGO_TARGET_DIR={W}/target`.
 
 The library is supposed to satisfy the following semantic properties (id - title: statement):
